@@ -179,6 +179,7 @@ type SimNode struct {
 	shutGate    chan struct{}
 	staleEvents []evRec
 	shutAt      time.Duration
+	shutM       *Memberlist
 	created  bool
 	crashed  bool
 	leftCalled bool
